@@ -10,7 +10,6 @@ import (
 	"path/filepath"
 	"strings"
 
-	"github.com/JunNishimura/Goit/internal/file"
 	"github.com/JunNishimura/Goit/internal/object"
 	"github.com/JunNishimura/Goit/internal/store"
 	"github.com/spf13/cobra"
@@ -171,23 +170,31 @@ var restoreCmd = &cobra.Command{
 				}
 
 				if f.IsDir() { // directory
-					filePaths, err := file.GetFilePathsUnderDirectory(argAbsPath)
-					if err != nil {
-						return fmt.Errorf("fail to get file path under directory: %w", err)
-					}
-					for _, filePath := range filePaths {
-						curPath, err := os.Getwd()
-						if err != nil {
-							return fmt.Errorf("fail to get current directory: %w", err)
-						}
-						relPath, err := filepath.Rel(curPath, filePath)
-						if err != nil {
-							return fmt.Errorf("fail to get relative path: %w", err)
-						}
-						cleanedRelPath := strings.ReplaceAll(relPath, `\`, "/")
+					cleanedArg := filepath.Clean(arg)
+					cleanedArg = strings.ReplaceAll(cleanedArg, `\`, "/")
 
+					// targets are the paths under the directory which are in the index or in the HEAD commit
+					// untracked files in the working tree are ignored
+					var paths []string
+					for _, entry := range client.Idx.GetEntriesByDirectory(cleanedArg) {
+						paths = append(paths, string(entry.Path))
+					}
+					if node, isNodeFound := object.GetNode(tree.Children, cleanedArg); isNodeFound && len(node.Children) > 0 {
+						for _, path := range node.GetPaths() {
+							// GetPaths returns the paths which start with the node name
+							path = strings.TrimSuffix(cleanedArg, node.Name) + path
+							if _, _, isRegistered := client.Idx.GetEntry([]byte(path)); !isRegistered {
+								paths = append(paths, path)
+							}
+						}
+					}
+					if len(paths) == 0 {
+						return fmt.Errorf("error: pathspec '%s' did not match any file(s) known to goit", arg)
+					}
+
+					for _, path := range paths {
 						// restore index
-						if err := restoreIndex(client.RootGoitPath, cleanedRelPath, client.Idx, tree); err != nil {
+						if err := restoreIndex(client.RootGoitPath, path, client.Idx, tree); err != nil {
 							return err
 						}
 					}
@@ -237,23 +244,19 @@ var restoreCmd = &cobra.Command{
 				}
 
 				if f.IsDir() { // directory
-					filePaths, err := file.GetFilePathsUnderDirectory(argAbsPath)
-					if err != nil {
-						return fmt.Errorf("fail to get file path under directory: %w", err)
-					}
-					for _, filePath := range filePaths {
-						curPath, err := os.Getwd()
-						if err != nil {
-							return fmt.Errorf("fail to get current directory: %w", err)
-						}
-						relPath, err := filepath.Rel(curPath, filePath)
-						if err != nil {
-							return fmt.Errorf("fail to get relative path: %w", err)
-						}
-						cleanedRelPath := strings.ReplaceAll(relPath, `\`, "/")
+					cleanedArg := filepath.Clean(arg)
+					cleanedArg = strings.ReplaceAll(cleanedArg, `\`, "/")
 
+					// targets are the paths under the directory which are in the index
+					// untracked files in the working tree are ignored
+					entries := client.Idx.GetEntriesByDirectory(cleanedArg)
+					if len(entries) == 0 {
+						return fmt.Errorf("error: pathspec '%s' did not match any file(s) known to goit", arg)
+					}
+
+					for _, entry := range entries {
 						// restore working directory
-						if err := restoreWorkingDirectory(client.RootGoitPath, cleanedRelPath, client.Idx); err != nil {
+						if err := restoreWorkingDirectory(client.RootGoitPath, string(entry.Path), client.Idx); err != nil {
 							return err
 						}
 					}
